@@ -119,14 +119,28 @@ func Metacall(t *Thread, obj Value, method string, args []Value, next Cont) (err
 // metamethod and returns the continuations that needs to be run to get the
 // results.
 func Continue(t *Thread, f Value, next Cont) (Cont, error) {
+	return continueWithDepth(t, f, next, 0)
+}
+
+// The length of a chain of '__call' metamethods is limited, like the length of
+// chains of '__index' metamethods.
+const maxCallChainLength = 100
+
+var errCallChainTooLong = errors.New("'__call' chain too long; possible loop")
+
+func continueWithDepth(t *Thread, f Value, next Cont, depth int) (Cont, error) {
 	callable, ok := f.TryCallable()
 	if ok {
 		return callable.Continuation(t, next), nil
 	}
-	cont, err, ok := metacont(t, f, "__call", next)
-	if !ok {
+	if depth >= maxCallChainLength {
+		return nil, errCallChainTooLong
+	}
+	metaf := t.metaGetS(f, "__call")
+	if metaf.IsNil() {
 		return nil, fmt.Errorf("attempt to call a %s value", f.CustomTypeName())
 	}
+	cont, err := continueWithDepth(t, metaf, next, depth+1)
 	if cont != nil {
 		t.Push1(cont, f)
 	}
@@ -136,18 +150,23 @@ func Continue(t *Thread, f Value, next Cont) (Cont, error) {
 // Call calls f with arguments args, pushing the results on next.  It may use
 // the metamethod '__call' if f is not callable.
 func Call(t *Thread, f Value, args []Value, next Cont) error {
-	if f.IsNil() {
-		return errors.New("attempt to call a nil value")
+	for depth := 0; ; depth++ {
+		if f.IsNil() {
+			return errors.New("attempt to call a nil value")
+		}
+		callable, ok := f.TryCallable()
+		if ok {
+			return t.call(callable, args, next)
+		}
+		if depth >= maxCallChainLength {
+			return errCallChainTooLong
+		}
+		metaf := t.metaGetS(f, "__call")
+		if metaf.IsNil() {
+			return fmt.Errorf("attempt to call a %s value", f.CustomTypeName())
+		}
+		f, args = metaf, append([]Value{f}, args...)
 	}
-	callable, ok := f.TryCallable()
-	if ok {
-		return t.call(callable, args, next)
-	}
-	err, ok := Metacall(t, f, "__call", append([]Value{f}, args...), next)
-	if ok {
-		return err
-	}
-	return fmt.Errorf("attempt to call a %s value", f.CustomTypeName())
 }
 
 // Call1 is a convenience method that calls f with arguments args and returns
